@@ -88,18 +88,25 @@ pub enum Event {
 
 /// A gate at which a background thread can be parked.
 pub struct Gate {
-    closed: Mutex<bool>,
+    closed: Mutex<(bool, usize)>,
     condvar: Condvar,
     waiting: AtomicUsize,
 }
 
 impl Gate {
-    fn new() -> Self { Gate { closed: Mutex::new(false), condvar: Condvar::new(), waiting: AtomicUsize::new(0) } }
+    fn new() -> Self { Gate { closed: Mutex::new((false, 0)), condvar: Condvar::new(), waiting: AtomicUsize::new(0) } }
 
-    pub fn close(&self) { *self.closed.lock() = true; }
+    pub fn close(&self) { *self.closed.lock() = (true, 0); }
 
     pub fn open(&self) {
-        *self.closed.lock() = false;
+        *self.closed.lock() = (false, 0);
+        self.condvar.notify_all();
+    }
+
+    /// Lets exactly one parked (or the next arriving) thread through a closed gate.
+    pub fn step(&self) {
+        let mut state = self.closed.lock();
+        if state.0 { state.1 += 1; }
         self.condvar.notify_all();
     }
 
@@ -107,10 +114,11 @@ impl Gate {
     pub fn waiting(&self) -> usize { self.waiting.load(Ordering::Acquire) }
 
     pub(crate) fn pass(&self) {
-        let mut closed = self.closed.lock();
-        if *closed {
+        let mut state = self.closed.lock();
+        if state.0 {
             self.waiting.fetch_add(1, Ordering::AcqRel);
-            while *closed { self.condvar.wait(&mut closed); }
+            while state.0 && state.1 == 0 { self.condvar.wait(&mut state); }
+            if state.0 { state.1 -= 1; }
             self.waiting.fetch_sub(1, Ordering::AcqRel);
         }
     }
